@@ -107,6 +107,9 @@ class RunStream(C.Stream):
     p_interrupt = 0.0             # probability of an injected keyboard interrupt
     p_fault = 0.0                 # probability of a failing reporting backend
     p_both = 0.0                  # probability of a failing reporting backend AND a keyboard interrupt in the same run
+    p_files = 0.0                 # probability of REAL file backends + a --save-report strategy attached to the run
+    file_backends = ("json",)
+    savings = ("at_each_failed_test", "at_each_test", "at_each_log", "at_each_suite")
     p_listeners = 0.0             # probability of further listeners of ONE class with per-instance handler sets (observe.SubsetSession)
     p_base_fault = 0.0            # share of the backend faults that are BaseExceptions `except Exception` does not catch
     quick_cases = 60
@@ -121,6 +124,9 @@ class RunStream(C.Stream):
         project["nb_threads"] = rng.choice(list(self.threads))
         case = {"project": project, "strategy": rng.choice(list(self.strategies)), "gseed": rng.randrange(1 << 24),
                 "interrupt": None, "fault": None}
+        if self.p_files and rng.random() < self.p_files:
+            # as `lcc run --reporting json [junit] --save-report <expr>`: the real backends save the report during the run
+            case["files"] = {"backends": list(self.file_backends), "saving": rng.choice(list(self.savings))}
         if self.p_listeners and rng.random() < self.p_listeners:
             # 2..3 sessions of one class; the less complete ones tend to come first
             shapes = [rng.choice(O.LISTENER_SHAPES) for _ in range(rng.choice([2, 2, 3]))]
@@ -146,12 +152,14 @@ class RunStream(C.Stream):
         return case
 
     def impl(self, case):
+        files = case.get("files") or {}
+        fkw = dict(file_backends=files.get("backends"), saving=files.get("saving")) if files else {}
         obs = O.run_project(case["project"], strategy=case["strategy"], gate_seed=case["gseed"],
-                            interrupt_at=case["interrupt"], backend_fault=case["fault"], listeners=case.get("listeners"))
+                            interrupt_at=case["interrupt"], backend_fault=case["fault"], listeners=case.get("listeners"), **fkw)
         if ("C05" in self.oracles and not case["interrupt"] and not case["fault"]
                 and (case["project"]["nb_threads"] != 1 or case["strategy"] != "off")):
-            base = O.run_project(dict(case["project"], nb_threads=1), strategy="off")
-            obs["baseline"] = {k: base.get(k) for k in ("report", "report_view", "attachments", "outcome")}
+            base = O.run_project(dict(case["project"], nb_threads=1), strategy="off", **fkw)
+            obs["baseline"] = {k: base.get(k) for k in ("report", "report_view", "attachments", "outcome", "saved")}
         return obs
 
     def oracle(self, case, obs):
@@ -227,6 +235,9 @@ class RunStream(C.Stream):
             f.append("interrupt-" + case["interrupt"][0] + ("-delivered" if any(r[0] == "interrupt" for r in obs["trace"]) else "-missed"))
         if case["fault"]:
             f.append("fault-" + case["fault"]["cls"] + ("-fired" if any(r[0] == "backend-raise" for r in obs["trace"]) else "-not-reached"))
+        if case.get("files"):
+            f.append("file-backends=" + "+".join(case["files"]["backends"]))
+            f.append("save-report=" + case["files"]["saving"])
         if case.get("listeners"):
             sizes = [len(O.listener_events(sh)) for sh in case["listeners"]]
             f.append("listeners-of-one-class=%d" % len(sizes))
@@ -253,6 +264,8 @@ class RunStream(C.Stream):
                 yield dict(case, fault=dict(case["fault"], k=case["fault"]["k"] - 1))
         if case["strategy"] != "off":
             yield dict(case, strategy="off")
+        if case.get("files") and case["files"]["saving"] != "at_each_test":
+            yield dict(case, files=dict(case["files"], saving="at_each_test"))
         if case.get("listeners") and len(case["listeners"]) > 2:
             for j in range(len(case["listeners"])):
                 yield dict(case, listeners=case["listeners"][:j] + case["listeners"][j + 1:])
